@@ -34,7 +34,7 @@ def run_go(ctx, src, tag):
     with open(os.path.join(d, "main.go"), "w") as f:
         f.write(src)
     env = dict(GOENV, GOFLAGS="-mod=mod", GO111MODULE="off")
-    p = subprocess.run(["go", "run", "main.go"], cwd=d, stdout=subprocess.PIPE, stderr=subprocess.PIPE, text=True, errors="replace", timeout=3000, env=env)
+    p = vlib.go_run(d, env, 3000)
     return p.returncode, p.stderr.splitlines()
 
 
